@@ -10,7 +10,39 @@ import (
 	"github.com/conduitio/conduit/pkg/foundation/cerrors"
 )
 
-func init() { verifRegister("VerifC13Reconfigure", VerifC13Reconfigure) }
+func init() {
+	verifRegister("VerifC13Reconfigure", VerifC13Reconfigure)
+	verifRegister("VerifC12Stopper", VerifC12Stopper)
+}
+
+// VerifC12Stopper: forceStopper.start and stop in both orders and overlapped:
+// afterwards the context handed to the connector is cancelled.
+func VerifC12Stopper() {
+	var f forceStopper
+	order := verifConcrete(verifChoice("order", 3))
+	var ctx context.Context
+	var cancel context.CancelFunc
+	switch order {
+	case 0:
+		ctx, cancel = f.start()
+		f.stop()
+	case 1:
+		f.stop()
+		ctx, cancel = f.start()
+	default:
+		done := make(chan struct{})
+		go func() {
+			defer close(done)
+			f.stop()
+		}()
+		ctx, cancel = f.start()
+		<-done
+	}
+	verifAssert(ctx.Err() != nil, "c12-force-stop-did-not-cancel-connector-context")
+	cancel()
+	f.stop() // a second force stop is harmless
+	verifCover("end")
+}
 
 func VerifC13Reconfigure() {
 	K := verifParam("K", 3)
